@@ -708,6 +708,10 @@ class Parser:
             # `Self { limbs }`: the Uint whose limb array is the variable `limbs`
             self.next(); self.next(); self.next()
             return ('uintlit', ('path', ['limbs']))
+        if v == '<' and self.peek()[1] == 'Self' and self.peek(1)[1] == '>' and self.peek(2)[1] == '::':
+            # `<Self>::f(..)`: the inherent function of `Self` (qualified so that the trait method of the same name is not meant)
+            self.next(); self.next()
+            kind, v = 'id', 'Self'
         if kind == 'id':
             path = [v]
             while self.peek()[1] == '::':
@@ -3081,6 +3085,7 @@ def translate(items, namespace='Ruint.Gen', imports=('Ruint.Gen.Prelude',), fns=
            '/-! GENERATED by tools/rs2lean.py from the Rust sources of /repo — do not edit. -/\n',
            'namespace %s\n' % namespace]
     errors = []
+    skipped = []
     for it in items:
         if only_group is not None and it.get('group', 'core') != only_group:
             continue
@@ -3168,7 +3173,12 @@ def translate(items, namespace='Ruint.Gen', imports=('Ruint.Gen.Prelude',), fns=
                 fns[alias] = fns[key]
             out.append('/-- `%s` (%s) -/\n%s' % (it['fn'], it['file'].split('/src/')[-1], code))
         except (TranslateError, IndexError, KeyError, ValueError, TypeError, AttributeError) as ex:
-            errors.append('%s: %s' % (it['fn'], ex))
+            if it.get('optional'):
+                skipped.append('%s (%s): %s' % (it['lean'], it['fn'], ex))
+            else:
+                errors.append('%s: %s' % (it['fn'], ex))
+    if skipped:
+        out.append('/- not translated (outside the subset):\n' + '\n'.join(' ' + x.replace('-/', '- /') for x in skipped) + '\n-/')
     out.append('end %s\n' % namespace)
     return '\n'.join(out), errors
 
@@ -3546,6 +3556,36 @@ def int_shift_items(repo):
     return out
 
 
+def facade_items(repo):
+    """the num-traits / num-integer trait impls for `Uint` (src/support/num_traits.rs, num_integer.rs): one item per method of
+    every `impl … Trait for Uint<BITS, LIMBS>` block, named `nt_<Trait>_<fn>` / `ni_<Trait>_<fn>`. Optional items: a method
+    outside the translated subset is skipped (the theorems of C20 name the ones that are tied)."""
+    out = []
+    for fname, pfx in (('num_traits.rs', 'nt'), ('num_integer.rs', 'ni')):
+        f = repo + '/src/support/' + fname
+        try:
+            src = open(f).read()
+        except (OSError, IOError):
+            continue
+        cut = re.search(r'#\[cfg\(test\)\]\s*mod\s', src)
+        body = src[:cut.start()] if cut else src
+        for m in re.finditer(r'(impl<const BITS: usize, const LIMBS: usize>\s+([A-Za-z0-9_]+)(<[^{]*?>)?\s+for\s+Uint<BITS, LIMBS>)\s*\{', body):
+            hdr, trait, targs = m.group(1), m.group(2), m.group(3) or ''
+            # the block: up to the matching brace
+            k = m.end()
+            depth = 1
+            while depth and k < len(body):
+                depth += (body[k] == '{') - (body[k] == '}')
+                k += 1
+            blk = body[m.end():k]
+            tag = trait + re.sub(r'[^A-Za-z0-9]+', '_', targs).strip('_')
+            for fm in re.finditer(r'\bfn\s+([a-z_0-9]+)\s*[<(]', blk):
+                out.append({'file': f, 'fn': fm.group(1), 'lean': '%s_%s_%s' % (pfx, tag, fm.group(1)),
+                            'key': 'Facade::%s::%s::%s' % (pfx, tag, fm.group(1)), 'after': hdr, 'uint': True, 'self_ty': 'uint',
+                            'group': 'facade', 'externs': UINT_EXTERNS, 'optional': True})
+    return out
+
+
 def macro_items(repo):
     """`pad_limbs` of the `uint!` proc macro (ruint-macro/src/lib.rs): trim / pad to the limb count and the range check"""
     return [{'file': repo + '/ruint-macro/src/lib.rs', 'fn': 'pad_limbs', 'lean': 'macro_pad_limbs', 'group': 'macro'}]
@@ -3621,7 +3661,9 @@ GROUPS = [('core', 'Words', ('Ruint.Gen.Prelude',)),
           ('rootv', 'WordsRoot', ('Ruint.Gen.WordsValue', 'Ruint.Gen.PreludeRes')),
           ('floatv', 'WordsFloat', ('Ruint.Gen.WordsValue', 'Ruint.Gen.PreludeRes', 'Ruint.Model.Float')),
           ('tofloat', 'WordsToFloat', ('Ruint.Gen.WordsUint', 'Ruint.Model.Float')),
-          ('intshift', 'WordsIntShift', ('Ruint.Gen.WordsUint',))]
+          ('intshift', 'WordsIntShift', ('Ruint.Gen.WordsUint',)),
+          ('facade', 'WordsFacade', ('Ruint.Gen.WordsUint', 'Ruint.Gen.WordsUintDiv', 'Ruint.Gen.WordsUintMod', 'Ruint.Gen.WordsIntShift',
+                                     'Ruint.Gen.WordsBytes'))]
 
 
 def translate_all(repo):
@@ -3654,6 +3696,7 @@ def translate_all(repo):
     items += float_value_items(repo)
     items += to_float_items(repo)
     items += int_shift_items(repo)
+    items += facade_items(repo)
     try:
         items += lehmer_items(repo)
     except (OSError, IOError) as ex:
